@@ -52,13 +52,14 @@ def run(ctx):
         r = ctx.tlc(SPEC, "MC_TecdsaDkg", cfg=cfg, coverage=True, label=cfg, timeout=ctx.pick(900, 3000), workers=ctx.pick(4, 8))
         ctx.require_coverage(r, [a for a in ACTIONS if not (cfg in ("MC_N4", "MC_N3intruder") and a == "DoDeliverDup")], cfg)
     # 2. each conjunct of the admission predicate is necessary: TLC must refute the weakened variants
-    for cfg in ("MC_HzOperating", "MC_HzSession", "MC_HzMember", "MC_HzSelf"):
+    for cfg in ctx.pick(("MC_HzOperating", "MC_HzSession"), ("MC_HzOperating", "MC_HzSession", "MC_HzMember", "MC_HzSelf")):
         hz = ctx.tlc(SPEC, "MC_TecdsaDkg", cfg=cfg, label=cfg, expect=("violation",))
         if hz.violated != "HistoryClean":
             ctx.broken("%s: expected HistoryClean to be violated, got %s" % (cfg, hz.violated))
-    hz = ctx.tlc(SPEC, "MC_TecdsaDkg", cfg="MC_HzOperatingKeys", label="MC_HzOperatingKeys", expect=("violation",))
-    if hz.violated != "OperatingNeverFail":
-        ctx.broken("MC_HzOperatingKeys: expected OperatingNeverFail to be violated, got %s" % hz.violated)
+    if ctx.thorough:
+        hz = ctx.tlc(SPEC, "MC_TecdsaDkg", cfg="MC_HzOperatingKeys", label="MC_HzOperatingKeys", expect=("violation",))
+        if hz.violated != "OperatingNeverFail":
+            ctx.broken("MC_HzOperatingKeys: expected OperatingNeverFail to be violated, got %s" % hz.violated)
     # 3. simulated behaviours of larger instances (invariants checked on every state) ...
     beh = []
     plan = ctx.pick([("Gen_N3", 40), ("Gen_N4", 25)],
@@ -101,7 +102,7 @@ def run(ctx):
         h = ctx.extra.get("harness", {})
         sc = h.get("states", {}).get("counters") or {}
         for need in ("deliver_forged", "deliver_dup", "deliver_intruder", "deliver_echo", "deliver_genuine", "admitted", "rejected",
-                     "behaviours_with_early_message", "behaviours_with_duplicate"):
+                     "behaviours_with_early_message", "behaviours_with_duplicate", "party_contexts"):
             if not sc.get(need):
                 ctx.broken("state replay never exercised %s" % need)
         if (h.get("execute", {}).get("counters") or {}).get("real_keygens", 0) < len(chosen):
